@@ -43,6 +43,25 @@ def regen(ctx):
 GENERATORS = [regen]
 
 
+# --- tie of kind (1) (task W15): Gen/InheritPrio.lean is regenerated from DiagLayerType.inheritance_priority and
+# HierarchyElement._get_parent_refs_sorted_by_priority of the current source by the Python->Lean translator and proved equal to
+# LayerKind.prio / the model's stable sort (Proofs/InheritPrioGenEq.lean)
+LEAN_TARGETS = LEAN_TARGETS + ["OdxVerif.Props.C09Gen"]
+THEOREMS = THEOREMS + ["OdxVerif.Inherit." + t for t in ['gen_inheritancePriority_eq', 'gen_parentRefs_eq', 'gen_sortDesc_eq', 'C09_gen_priority_tie', 'C09_gen_priority_table', 'C09_gen_parent_order']]
+TRUSTED = TRUSTED + ["translator harness/extract/py2lean.py + primitives lean/OdxVerif/Model/PyRt.lean for DiagLayerType.inheritance_priority (dict literal + "
+                     "look-up) and HierarchyElement._get_parent_refs_sorted_by_priority (sorted(key=, reverse=) = Py.sortedByKeyM: keys first, then a "
+                     "stable sort in either direction; getattr(raw, 'parent_refs', []) = the list of parent references, empty for layers without)"]
+
+
+def regen_inherit_prio(ctx):
+    """Gen/InheritPrio.lean from the current source; Unsupported (source left the translator's subset) = broken obligation"""
+    from extract import py2lean
+    py2lean.regenerate_inherit_prio(common.REPO, common.VERIF)
+
+
+GENERATORS = GENERATORS + [regen_inherit_prio]
+
+
 # ------------------------------------------------------------------------------------------------
 # worker side: load one hierarchy with the real loader and report what every layer shows
 def _cat_of(space, clsname):
